@@ -19,7 +19,7 @@ REQUIRED_OBS = {"openings": 200, "over_limit_refused": 20, "header_only_without_
 
 
 def cases(tier, seed):
-    n = 200 if tier == "quick" else 6000
+    n = 200 if tier == "quick" else 20000
     cs = workload.reader_population(n, seed + 101, payloads=("random", "special", "extreme"))
     rng = random.Random(seed)
     for i, c in enumerate(cs):
